@@ -532,6 +532,23 @@ func c06BothTx(r *core.Run) {
 		info := fn.Pkg.TypesInfo
 		sp := &flow.Spec{W: w, Classify: classify}
 		res := sp.Analyze(fn)
+		// (second reading with the deferred clean-ups run where the function — or a helper of the type that opens
+		// the fence transaction and cleans up after itself — leaves: an exit that is closed there is closed)
+		closedAtExit := map[string]bool{}
+		{
+			sp2 := &flow.Spec{W: w, Classify: classify, DeferAtExit: true}
+			for _, ex := range sp2.Analyze(fn).Exits {
+				if ex.Class == flow.ExitOK || !ex.St.Has("ok:bizbegin") {
+					continue
+				}
+				k := w.Pos(ex.Pos)
+				ok := ex.St.Has("bizend") && (!ex.St.Has("ok:fencebegin") || ex.St.Has("fenceend"))
+				if prev, seen := closedAtExit[k]; seen {
+					ok = ok && prev
+				}
+				closedAtExit[k] = ok
+			}
+		}
 		// the deferred cleanup runs only when the function-level err variable it captures is non-nil
 		var capt types.Object
 		cleans := map[string]bool{}
@@ -593,7 +610,7 @@ func c06BothTx(r *core.Run) {
 			deferRuns := capt != nil && ex.St.IsNonNil(capt) && ex.St.Maybe("defer:bizend")
 			bizClosed := ex.St.Has("bizend") || (deferRuns && cleans["bizend"])
 			fenceClosed := !ex.St.Has("ok:fencebegin") || ex.St.Has("fenceend") || (deferRuns && cleans["fenceend"])
-			r.Check(bizClosed && fenceClosed, "C06.bothtx", core.ShortKey(fn.Obj)+" "+role, w.Pos(ex.Pos),
+			r.Check(bizClosed && fenceClosed || closedAtExit[w.Pos(ex.Pos)], "C06.bothtx", core.ShortKey(fn.Obj)+" "+role, w.Pos(ex.Pos),
 				"error return rolls back every transaction begun so far", "error return with a transaction begun by this function still open (the deferred cleanup does not run here: the error variable it tests is not the one being returned, or it is not yet installed)")
 		}
 	}
